@@ -200,37 +200,42 @@ impl Oracle for C02 {
 pub fn run(tier: &str) -> i32 {
     let mut rep = Report::new("C02", tier, "model_checking");
     let quick = tier == "quick";
-    let parts: Vec<(Network, u32, usize, Vec<u8>)> = if quick {
+    let parts: Vec<(Network, u32, usize, Vec<u8>, bool)> = if quick {
         vec![
-            (Network::Regtest, 1, 5, vec![1, 2, 3]),
-            (Network::Regtest, 2, 5, vec![1, 2, 3]),
+            (Network::Regtest, 1, 5, vec![1, 2, 3], false),
+            (Network::Regtest, 2, 5, vec![1, 2, 3], false),
             // unevenly spaced difficulties: more distinct partial sums, so that
             // mis-weighted branches fall between competitors
-            (Network::Regtest, 3, 5, vec![1, 2, 5]),
-            (Network::Regtest, 2, 6, vec![1, 4]),
+            (Network::Regtest, 3, 5, vec![1, 2, 5], false),
+            (Network::Regtest, 2, 6, vec![1, 4], false),
+            // timestamps that are not monotone along the chain: the tip's time is not the
+            // largest time of the chain
+            (Network::Regtest, 2, 5, vec![1, 2], true),
         ]
     } else {
         vec![
-            (Network::Regtest, 1, 6, vec![1, 2, 3]),
-            (Network::Regtest, 2, 6, vec![1, 2, 3]),
-            (Network::Regtest, 3, 6, vec![1, 2, 3]),
-            (Network::Regtest, 2, 7, vec![1, 2]),
-            (Network::Regtest, 3, 7, vec![1, 2]),
-            (Network::Mainnet, 2, 5, vec![1, 2, 3]),
-            (Network::Testnet, 2, 5, vec![1, 2, 3]),
+            (Network::Regtest, 1, 6, vec![1, 2, 3], false),
+            (Network::Regtest, 2, 6, vec![1, 2, 3], false),
+            (Network::Regtest, 3, 6, vec![1, 2, 3], false),
+            (Network::Regtest, 2, 7, vec![1, 2], false),
+            (Network::Regtest, 3, 7, vec![1, 2], false),
+            (Network::Mainnet, 2, 5, vec![1, 2, 3], false),
+            (Network::Testnet, 2, 5, vec![1, 2, 3], false),
+            (Network::Regtest, 2, 6, vec![1, 2, 3], true),
+            (Network::Mainnet, 2, 5, vec![1, 2], true),
         ]
     };
-    for (net, theta, n, diffs) in parts {
+    for (net, theta, n, diffs, dips) in parts {
         let m = ChainModel {
-            cfg: WorldCfg::on(net, theta),
+            cfg: WorldCfg { time_dips: dips, ..WorldCfg::on(net, theta) },
             alpha: Alphabet::tree(n, &diffs),
             oracle: C02,
         };
         let e = explore(&m, &Limits::new(3, if quick { 300 } else { 3000 }));
         rep.absorb(
-            &format!("TREE net={} theta={} n={} D={:?}", net, theta, n, diffs),
+            &format!("TREE net={} theta={} n={} D={:?}{}", net, theta, n, diffs, if dips { " non-monotone-times" } else { "" }),
             e,
-            json!({"network": net.to_string(), "threshold": theta, "max_blocks": n, "difficulties": diffs}),
+            json!({"network": net.to_string(), "threshold": theta, "max_blocks": n, "difficulties": diffs, "non_monotone_timestamps": dips}),
         );
     }
     // the fee percentiles are answered with respect to the same tip: fee-carrying
